@@ -603,6 +603,8 @@ def run(ctx):
         # pareto
         for rep in range(3):
             npt = [0, 1, 2][rep] if it % 8 == 0 else int(rng.integers(0, 61))
+            if it % 8 == 3 and rep == 0:
+                npt = [63, 64, 65, 127, 128, 129, 255, 256, 257, 100, 300][(it // 8) % 11]
             nd = int(rng.integers(1, 6))
             kk = (it + rep) % 3
             if kk == 0:
